@@ -18,10 +18,17 @@ package tests
 //   CASE <id> <kv|ckv|disk> <nrep>
 //   K <key>...                      keys looked up by a dump
 //   U <r> <idx> <cmd> [<idx> <cmd>]...  one Update call (kv: one call per entry, in order)
-//   L <r> <key>   S <r> (Sync)   P <r> (PrepareSnapshot -> ctx slot r)   V <r> (SaveSnapshot ctx slot r -> snapshot slot r)
+//   CASE <id> disk <nrep> raw       the DiskKVTest replicas are used exactly as NewDiskKVTest returns them (file system set, nothing
+//        else): SaveSnapshot may then answer ErrSnapshotAborted (allowed for SaveSnapshot only); P prepares 3 contexts at the same
+//        point, V retries with the next one ("V ok <aborted attempts>"), the unused ones are saved into a discarded buffer
+//   L <r> <key>   S <r> (Sync)   P <r> [@<s>] (PrepareSnapshot -> context slot s of replica r, default 0; several contexts of
+//        one machine may be outstanding)   V <r> [@<s>] (SaveSnapshot of context slot s -> snapshot slot s of replica r; KVTest:
+//        of the live state)
 //   R <r> <r2> [<chunk>] (RecoverFromSnapshot of r from snapshot slot r2; the reader hands out at most <chunk> bytes per Read)
 //   O <r> (Close + new object + Open)
-//   H <r> (GetHash)   D <r> (GetHash + Lookup of every K key)
+//   R ... [@<s>]: from snapshot slot s of replica r2
+//   H <r> [<n>] (GetHash, n times: "H <hash>" when all n calls succeed with one value, else "H err <msg>" / "H vary <h1> <h2>")
+//   D <r> (GetHash + Lookup of every K key)
 //   C <r> <nthr> <nkeys> <key>... <op of replica r>   the op runs while <nthr> goroutines call Lookup(key) on replica r in a
 //        loop (the statemachine contract allows Lookup concurrently with Update / SaveSnapshot / RecoverFromSnapshot / Close).
 //        Goroutine 0 loops from before the op until after it; the others start when the op is about to take effect (a
@@ -83,10 +90,9 @@ type vkReplica struct {
 	ckv  sm.IConcurrentStateMachine
 	dkv  sm.IOnDiskStateMachine
 	fs   config.IFS
-	ctx  interface{}
-	has  bool // ctx slot filled
-	snap []byte
-	hasS bool
+	ctx  map[int][]interface{} // context slot -> outstanding contexts taken at one point (raw: spares for aborted saves)
+	snap map[int][]byte        // snapshot slot -> image
+	raw  bool                  // DiskKVTest as NewDiskKVTest returns it
 	dead bool
 	// called when RecoverFromSnapshot has read the last byte of the snapshot it is given (the swap to the restored
 	// state follows): lets the concurrent phase concentrate its lookups on the end of a restore
@@ -115,13 +121,24 @@ func vkOpenDisk(r *vkReplica) (uint64, error) {
 	d := NewDiskKVTest(r.cid, r.nid)
 	t := d.(*DiskKVTest)
 	t.SetTestFS(r.fs)
-	t.disableSnapshotAbort = true
+	if !r.raw {
+		t.disableSnapshotAbort = true
+	}
 	r.dkv = d
 	return d.Open(make(chan struct{}))
 }
 
-func vkNewReplica(kind string, cid, nid uint64) *vkReplica {
-	r := &vkReplica{kind: kind, cid: cid, nid: nid}
+// trailing "@<slot>" of an op line
+func vkSlot(f []string) (int, []string) {
+	if n := len(f); n > 0 && strings.HasPrefix(f[n-1], "@") {
+		s, _ := strconv.Atoi(f[n-1][1:])
+		return s, f[:n-1]
+	}
+	return 0, f
+}
+
+func vkNewReplica(kind string, cid, nid uint64, raw bool) *vkReplica {
+	r := &vkReplica{kind: kind, cid: cid, nid: nid, raw: raw && kind == "disk", ctx: map[int][]interface{}{}, snap: map[int][]byte{}}
 	switch kind {
 	case "kv":
 		r.kv = NewKVTest(cid, nid)
@@ -318,6 +335,7 @@ var vkMode = os.Getenv("VERIF_MODE")
 
 // one op; returns the observation line (without newline)
 func vkOp(reps []*vkReplica, keys [][]byte, f []string) (out string) {
+	slot, f := vkSlot(f)
 	ri, _ := strconv.Atoi(f[1])
 	if ri < 0 || ri >= len(reps) {
 		return f[0] + " badreplica"
@@ -375,52 +393,83 @@ func vkOp(reps []*vkReplica, keys [][]byte, f []string) (out string) {
 		}
 		return "S ok"
 	case "P":
-		var err error
-		switch r.kind {
-		case "kv":
+		if r.kind == "kv" {
 			return "P na"
-		case "ckv":
-			r.ctx, err = r.ckv.PrepareSnapshot()
-		default:
-			r.ctx, err = r.dkv.PrepareSnapshot()
 		}
-		if err != nil {
-			return "P err " + vkMsg(err)
+		if len(r.ctx[slot]) > 0 {
+			return "P unknown" // slot in use: malformed script
 		}
-		r.has = true
+		n := 1
+		if r.raw {
+			n = 3
+		}
+		for i := 0; i < n; i++ {
+			var c interface{}
+			var err error
+			if r.kind == "ckv" {
+				c, err = r.ckv.PrepareSnapshot()
+			} else {
+				c, err = r.dkv.PrepareSnapshot()
+			}
+			if err != nil {
+				return "P err " + vkMsg(err)
+			}
+			r.ctx[slot] = append(r.ctx[slot], c)
+		}
 		return "P ok"
 	case "V":
 		var buf bytes.Buffer
-		var err error
 		done := make(chan struct{})
-		switch r.kind {
-		case "kv":
-			err = r.kv.SaveSnapshot(&buf, nil, done)
-		case "ckv":
-			if !r.has {
-				return "V noctx"
+		if r.kind == "kv" {
+			if err := r.kv.SaveSnapshot(&buf, nil, done); err != nil {
+				return "V err " + vkMsg(err)
 			}
-			r.has = false
-			err = r.ckv.SaveSnapshot(r.ctx, &buf, nil, done)
-		default:
-			if !r.has {
-				return "V noctx"
+			r.snap[slot] = buf.Bytes()
+			return "V ok"
+		}
+		cs := r.ctx[slot]
+		if len(cs) == 0 {
+			return "V noctx"
+		}
+		delete(r.ctx, slot) // a context is used once (DiskKVTest: its pebble snapshot is closed by SaveSnapshot)
+		res, aborted := "", 0
+		for i, c := range cs {
+			var err error
+			if res != "" { // unused spare: release it
+				var sink bytes.Buffer
+				_ = r.dkv.SaveSnapshot(c, &sink, done)
+				continue
 			}
-			r.has = false // the pebble snapshot is closed by SaveSnapshot
-			err = r.dkv.SaveSnapshot(r.ctx, &buf, done)
+			buf.Reset()
+			if r.kind == "ckv" {
+				err = r.ckv.SaveSnapshot(c, &buf, nil, done)
+			} else {
+				err = r.dkv.SaveSnapshot(c, &buf, done)
+			}
+			if err == sm.ErrSnapshotAborted && r.raw {
+				aborted++
+				if i == len(cs)-1 {
+					res = "V aborted"
+				}
+				continue
+			}
+			if err != nil {
+				res = "V err " + vkMsg(err)
+				continue
+			}
+			r.snap[slot] = append([]byte(nil), buf.Bytes()...)
+			res = "V ok"
+			if aborted > 0 {
+				res += " " + strconv.Itoa(aborted)
+			}
 		}
-		if err != nil {
-			return "V err " + vkMsg(err)
-		}
-		r.snap = buf.Bytes()
-		r.hasS = true
-		return "V ok"
+		return res
 	case "R":
 		si, _ := strconv.Atoi(f[2])
-		if si < 0 || si >= len(reps) || !reps[si].hasS {
+		if si < 0 || si >= len(reps) || reps[si].snap[slot] == nil {
 			return "R nosnap"
 		}
-		rd := &vkSigReader{r: bytes.NewReader(reps[si].snap), fire: r.atEnd}
+		rd := &vkSigReader{r: bytes.NewReader(reps[si].snap[slot]), fire: r.atEnd}
 		if len(f) > 3 {
 			rd.chunk, _ = strconv.Atoi(f[3])
 		}
@@ -437,7 +486,7 @@ func vkOp(reps []*vkReplica, keys [][]byte, f []string) (out string) {
 		if err != nil {
 			return "R err " + vkMsg(err)
 		}
-		r.has = false // convention shared with the model: a snapshot context does not survive a recovery
+		r.ctx = map[int][]interface{}{} // convention shared with the model: a snapshot context does not survive a recovery
 		return "R ok"
 	case "O":
 		if r.kind != "disk" {
@@ -446,16 +495,29 @@ func vkOp(reps []*vkReplica, keys [][]byte, f []string) (out string) {
 		if err := r.dkv.Close(); err != nil {
 			return "O err " + vkMsg(err)
 		}
-		r.has = false
+		r.ctx = map[int][]interface{}{}
 		idx, err := vkOpenDisk(r)
 		if err != nil {
 			return "O err " + vkMsg(err)
 		}
 		return "O " + strconv.FormatUint(idx, 10)
 	case "H":
+		n := 1
+		if len(f) > 2 {
+			n, _ = strconv.Atoi(f[2])
+		}
 		h, err := r.hasher().GetHash()
 		if err != nil {
 			return "H err " + vkMsg(err)
+		}
+		for i := 1; i < n; i++ { // a hash read must neither fail nor vary
+			h2, err := r.hasher().GetHash()
+			if err != nil {
+				return fmt.Sprintf("H err %s (call %d of %d)", vkMsg(err), i+1, n)
+			}
+			if h2 != h {
+				return fmt.Sprintf("H vary %016x %016x (call %d of %d)", h, h2, i+1, n)
+			}
 		}
 		return fmt.Sprintf("H %016x", h)
 	case "D":
@@ -493,7 +555,7 @@ func vkRunCase(lines []string) []string {
 			}
 		}()
 		for i := range reps {
-			reps[i] = vkNewReplica(kind, 1000+cidn, uint64(i+1))
+			reps[i] = vkNewReplica(kind, 1000+cidn, uint64(i+1), len(hdr) > 4 && hdr[4] == "raw")
 		}
 	}()
 	if reps == nil {
